@@ -247,6 +247,30 @@ func c12prop(ev *evid.Rec) func(rt *rapid.T) {
 					settle(0)
 					verify("disconnect", nil)
 				},
+				"restart": func(rt *rapid.T) {
+					// the server is restarted from its files: every session and chat is gone, the accounts (with the chat
+					// privileges the administrator set last) are what the files say
+					if rapid.IntRange(0, 3).Draw(rt, "really") != 0 {
+						rt.Skip()
+					}
+					history = append(history, "restart")
+					if err := w.Restart(); err != nil {
+						fail("the server does not start from its own files: %v", err)
+					}
+					for _, c := range clients {
+						c.connected = false
+					}
+					for _, ch := range chats {
+						ch.members, ch.invited = map[int]bool{}, map[int]bool{}
+					}
+					editor = loginAs(rt, w, "10.12.9.250:1", "editor", "epw", "editor")
+					nextID = 1
+					first := rapid.IntRange(0, nacc-1).Draw(rt, "first")
+					connect(clients[first])
+					connect(clients[(first+1+rapid.IntRange(0, nacc-2).Draw(rt, "second"))%nacc])
+					drain()
+					editor.TakeInbox()
+				},
 				"publicSend": func(rt *rapid.T) {
 					c := pick("who", isConn)
 					msg := genMsg("msg")
